@@ -25,7 +25,7 @@ an infinity (`1e999` lexes to `inf`); NaN has no literal.  Python compares `int`
 are exact comparisons of rationals.  `float(int)` rounds to nearest-even and raises `OverflowError` from `2^1024 -
 2^970` on (`floatOfInt`).  `bool` is a `numbers.Integral` (value 0 / 1) in Python; the language reference is silent
 about booleans as numeric arguments, so the specification follows the implementation there (not judged).
-Whether a pattern compiles (`re.compile`) is the external parameter `rx`.
+Whether a pattern compiles (`re.compile` raises neither `re.error` nor `OverflowError`) is the external parameter `rx`.
 -/
 namespace StoneVerif.FeParams
 
@@ -60,10 +60,6 @@ def FVal.lt : FVal → FVal → Bool
   | .ninf, .fin _ _ => true
   | .ninf, .pinf => true
   | _, _ => false
-
-def FVal.isZero : FVal → Bool
-  | .fin n _ => n == 0
-  | _ => false
 
 /-- the double with IEEE-754 bit pattern `b` (NaN patterns do not occur in the tables) -/
 def fvalOfBits (b : Nat) : FVal :=
@@ -116,15 +112,6 @@ def Arg.num? : Arg → Option Num
   | .bool b => some (.i (if b then 1 else 0))
   | .float x => some (.f x)
   | _ => none
-
-/-- Python truthiness of an argument value -/
-def Arg.truthy : Arg → Bool
-  | .int i => i != 0
-  | .float x => !x.isZero
-  | .str s => s != ""
-  | .bool b => b
-  | .null => true
-  | .ty _ => true
 
 def Arg.isTy : Arg → Bool
   | .ty _ => true
@@ -202,16 +189,21 @@ def checkKw (names : List String) (numReq : Nat) : List (String × Arg) → Opti
 
 def bad {α} : Except FeErr α := .error (.specerr .badArgument)
 
-/-- `_BoundedInteger.__init__`, one bound -/
-def intBound (isMin : Bool) (limit : Int) : Option Arg → Except FeErr (Option Int)
+/-- `_BoundedInteger.__init__`, one bound: integral and inside the width of the type (both ends are tested for
+`min_value` and for `max_value`) -/
+def intBound (lim : Int × Int) : Option Arg → Except FeErr (Option Int)
   | none => .ok none
   | some a =>
     match a.integral? with
     | none => bad
-    | some v => if (if isMin then v < limit else v > limit) then bad else .ok (some v)
+    | some v => if v < lim.1 || lim.2 < v then bad else .ok (some v)
 
-/-- `_BoundedFloat.__init__`, one bound -/
-def floatBound (isMin : Bool) (limit : Option FVal) : Option Arg → Except FeErr (Option FVal)
+/-- `x < minimum` or `x > maximum` where a class without limits (`Float64`) tests nothing -/
+def outsideF (lim : Option FVal × Option FVal) (x : FVal) : Bool :=
+  (match lim.1 with | some l => x.lt l | none => false) || (match lim.2 with | some h => h.lt x | none => false)
+
+/-- `_BoundedFloat.__init__`, one bound: a real number, converted with `float()`, inside the class limits -/
+def floatBound (lim : Option FVal × Option FVal) : Option Arg → Except FeErr (Option FVal)
   | none => .ok none
   | some a =>
     match a.num? with
@@ -222,10 +214,7 @@ def floatBound (isMin : Bool) (limit : Option FVal) : Option Arg → Except FeEr
         | .i i => floatOfInt i
       match conv with
       | none => bad                      -- OverflowError -> ParameterError
-      | some x =>
-        match limit with
-        | none => .ok (some x)
-        | some l => if (if isMin then x.lt l else l.lt x) then bad else .ok (some x)
+      | some x => if outsideF lim x then bad else .ok (some x)
 
 /-- `String.__init__` / `List.__init__`, one length: integral and not below `least` -/
 def lenBound (least : Int) : Option Arg → Except FeErr (Option Int)
@@ -239,14 +228,14 @@ def optIntTruthy : Option Int → Bool
   | some v => v != 0
   | none => false
 
-/-- `String.__init__`, the pattern -/
+/-- `String.__init__`, the pattern: `if pattern is not None:` a string that `re.compile` accepts (`re.error` and
+`OverflowError` both become `ParameterError`) -/
 def patternArg (rx : String → Bool) : Option Arg → Except FeErr (Option Arg)
   | none => .ok none
   | some p =>
-    if !p.truthy then .ok (some p)         -- `if pattern:` is skipped for 0, 0.0, false, ""
-    else match p with
-      | .str s => if rx s then .ok (some p) else bad
-      | _ => bad
+    match p with
+    | .str s => if rx s then .ok (some p) else bad
+    | _ => bad
 
 /-- the constructor call `data_type_class(*pos_args, **kw_args)` -/
 def construct (rx : String → Bool) (k : TyKind) (pos : List Arg) (kw : List (String × Arg)) : Except FeErr TyVal :=
@@ -255,12 +244,12 @@ def construct (rx : String → Bool) (k : TyKind) (pos : List Arg) (kw : List (S
   | .boolean, [] => .ok (.plain k)
   | .void, [] => .ok (.plain k)
   | .int32, [] | .int64, [] | .uint32, [] | .uint64, [] => do
-    let lo ← intBound true (intLimits k).1 (kw.lookup "min_value")
-    let hi ← intBound false (intLimits k).2 (kw.lookup "max_value")
+    let lo ← intBound (intLimits k) (kw.lookup "min_value")
+    let hi ← intBound (intLimits k) (kw.lookup "max_value")
     .ok (.int k lo hi)
   | .float32, [] | .float64, [] => do
-    let lo ← floatBound true (floatLimits k).1 (kw.lookup "min_value")
-    let hi ← floatBound false (floatLimits k).2 (kw.lookup "max_value")
+    let lo ← floatBound (floatLimits k) (kw.lookup "min_value")
+    let hi ← floatBound (floatLimits k) (kw.lookup "max_value")
     .ok (.float k lo hi)
   | .string, [] => do
     let mn ← lenBound 0 (kw.lookup "min_length")
@@ -389,36 +378,5 @@ def legalArgs (rx : String → Bool) (k : TyKind) (pos : List Arg) (kw : List (S
 /-- a reference `K(args)` / `K(args)?` to a built-in type is legal: legal arguments, and `Void` is never nullable -/
 def legalRef (rx : String → Bool) (k : TyKind) (pos : List Arg) (kw : List (String × Arg)) (nullable : Bool) : Bool :=
   legalArgs rx k pos kw && !(k == .void && nullable)
-
-/-! ## The known holes (accepted although illegal), as predicates on the input
-
-Used as exclusions by the `_partial` theorems; each is witnessed in Props/C01.lean and replayed on the implementation
-by the `fe.params` suite.  (Two former holes -- a literal as `List` / `Map` element type, a non-integral `List`
-length -- and the former crash site `List(T, min_items="a")` were repaired in the code; the model follows.) -/
-
-/-- H3: `String(pattern=0)`: a falsy non-string pattern skips `if pattern:` -/
-def holeFalsyPattern (k : TyKind) (kw : List (String × Arg)) : Bool :=
-  k == .string && (match kw.lookup "pattern" with
-    | some p => !p.truthy && !p.isStr
-    | none => false)
-
-/-- H4: a bound beyond the *other* end of the width: `Int32(min_value=2^31)`, `UInt32(max_value=-1)`,
-`Float32(min_value=1e39)` (only `min_value < minimum` and `max_value > maximum` are tested) -/
-def holeFarSide (k : TyKind) (kw : List (String × Arg)) : Bool :=
-  match k with
-  | .int32 | .int64 | .uint32 | .uint64 =>
-    (match (kw.lookup "min_value").bind Arg.integral? with | some v => (intLimits k).2 < v | none => false) ||
-    (match (kw.lookup "max_value").bind Arg.integral? with | some v => v < (intLimits k).1 | none => false)
-  | .float32 | .float64 =>
-    let conv (a : Option Arg) : Option FVal := match a.bind Arg.num? with
-      | some (.f x) => some x
-      | some (.i i) => floatOfInt i
-      | none => none
-    (match conv (kw.lookup "min_value"), (floatLimits k).2 with | some x, some h => h.lt x | _, _ => false) ||
-    (match conv (kw.lookup "max_value"), (floatLimits k).1 with | some x, some l => x.lt l | _, _ => false)
-  | _ => false
-
-def hitsHole (k : TyKind) (kw : List (String × Arg)) : Bool :=
-  holeFalsyPattern k kw || holeFarSide k kw
 
 end StoneVerif.FeParams
